@@ -596,7 +596,14 @@ func fixedCases() []core.Case {
 	src := overlayOf("ci-src1")
 	gid := multicast.GenerateGID("c37-group-0").Bytes()
 	h := func(ms ...proto.Message) string { return core.Hex(frame(ms...)) }
+	nroot, nframes := nestedRaggedPyramid()
+	var nmsgs []proto.Message
+	for _, f := range nframes {
+		nmsgs = append(nmsgs, f)
+	}
 	return []core.Case{
+		// known finding (pkg/file/joiner, not repaired here): see known-findings.txt
+		{ID: "known-pyramid-ragged-nested", NT: true, Ops: []string{"ci.pyramid ci-src1 " + h(&cipb.ChunkPyramidReq{RootCid: nroot.Bytes(), Target: src.Bytes()}) + " " + h(nmsgs...)}},
 		{ID: "fix-handshake-ok", NT: true, Ops: []string{"hs.dial " + h(&verifexport.HandshakeSynAck{Syn: syn, Ack: goodAck}), "hs.handle " + h(syn, goodAck)}},
 		{ID: "fix-handshake-synack-nil-syn", NT: true, Ops: []string{"hs.dial " + h(&verifexport.HandshakeSynAck{}), "hs.dial " + h(&verifexport.HandshakeSynAck{Ack: goodAck})}},
 		{ID: "fix-handshake-synack-nil-ack", NT: true, Ops: []string{"hs.dial " + h(&verifexport.HandshakeSynAck{Syn: syn})}},
@@ -619,17 +626,18 @@ func fixedCases() []core.Case {
 }
 
 func (prop) Gen(r *core.Rand, tier string) []core.Case {
+
 	k := 1
 	if tier == "thorough" {
 		k = 12
 	}
 	cs := fixedCases()
-	cs = append(cs, genHs(r.Fork(), 90*k)...)
-	cs = append(cs, genHive(r.Fork(), 50*k, 4*k)...)
-	cs = append(cs, genRetPing(r.Fork(), 70*k)...)
-	cs = append(cs, genTr(r.Fork(), 80*k)...)
-	cs = append(cs, genCi(r.Fork(), 100*k)...)
-	cs = append(cs, genRt(r.Fork(), 90*k, 6*k)...)
-	cs = append(cs, genMc(r.Fork(), 40*k)...)
+	cs = append(cs, genHs(r.Fork(), 60*k)...)
+	cs = append(cs, genHive(r.Fork(), 30*k, 3*k)...)
+	cs = append(cs, genRetPing(r.Fork(), 50*k)...)
+	cs = append(cs, genTr(r.Fork(), 60*k)...)
+	cs = append(cs, genCi(r.Fork(), 70*k)...)
+	cs = append(cs, genRt(r.Fork(), 50*k, 4*k)...)
+	cs = append(cs, genMc(r.Fork(), 25*k)...)
 	return cs
 }
